@@ -1,6 +1,7 @@
 import Proofs.ConfModel
 import Proofs.Classify
 import Proofs.Fund
+import Proofs.DualC
 
 /-! # C15 — classify() and Blade.mv
 
@@ -11,8 +12,11 @@ coded tables (`coded_*` below).  At the origin the tests and the recovered direc
 translation is a unit versor that fixes `einf`, hence commutes with every test, leaves the direction element `E einf`
 invariant, and carries the location `eo + ρ einf` to `up(p) + ρ einf`, whose `down` is `p`.
 
-PARTIAL: `DualFlat` (duality with the pseudoscalar), the `== 0` tests in floating point, the grade bookkeeping / class
-aliases and the error branches are decided by evaluation on the implementation. -/
+`DualFlat`: the dual of anything containing `einf` is orthogonal to `einf` (canonical model, duality lemma), and `X * I`
+undoes the dual.
+
+PARTIAL: the `== 0` tests in floating point, the grade bookkeeping / class aliases and the error branches are decided by
+evaluation on the implementation. -/
 
 namespace C15
 open Conf
@@ -91,5 +95,15 @@ theorem coded_vector_wedge_blade (g : Nat) (x B : CMV n R) (hx : IsHom n 1 x) (h
     wedge n x B + wedge n x B = gmul n sig x B + (sgn g : R) • gmul n sig B x := two_wedge_vector_hom n sig g x B hx hB
 theorem coded_blade_wedge_vector (g : Nat) (x B : CMV n R) (hx : IsHom n 1 x) (hB : IsHom n g B) :
     wedge n B x = (sgn g : R) • wedge n x B := wedge_blade_vector n g x B hx hB
+
+/-- **DualFlat**: for the pseudoscalar `I` (any invertible top-grade element), every vector `x` and any `F` with `x ∧ F = 0`,
+    the dual `F I⁻¹` is orthogonal to `x`: `x ⌋ (F I⁻¹) = 0` — with `x = einf` this is the test `−einf | X == 0` that sends the
+    dual of a flat (`einf ∧ F = 0`) to the `DualFlat` branch of `classify`; undualising (`X * I`) gives `F` back -/
+theorem dualflat_is_orthogonal_to_einf {n : Nat} {sig : Nat → R} (half : R) (hhalf : 2 * half = 1) (x I Iinv F : Cl n sig)
+    (hx : IsHom n 1 x) (hI : IsHom n n I) (h1 : I * Iinv = 1) (h2 : Iinv * I = 1) (hF : wedge n x F = 0) :
+    (asCl (mmul n sig Model.lcmtCheck x (F * Iinv)) : Cl n sig) = 0 :=
+  lc_dual_of_wedge_zero half hhalf x I Iinv F hx hI h1 h2 hF
+theorem dualflat_undual {n : Nat} {sig : Nat → R} (I Iinv F : Cl n sig) (h2 : Iinv * I = 1) : (F * Iinv) * I = F := by
+  rw [mul_assoc, h2, mul_one]
 
 end C15
